@@ -1,8 +1,397 @@
-//! (stub) family `relocate` - see CONTRIBUTING.md
-use anyhow::{bail, Result};
+//! C28 driver: a committed index directory is copied (cp -a semantics) or moved to a new path;
+//! the original is kept, modified by further commits (and compaction), or removed; then the copy
+//! is opened at the new path and searched, committed to and compacted while the traced-fs hook
+//! records every primitive file operation (reads and opens included). Each recorded path is
+//! classified as under the copy's root (B), under the original's root (A) or elsewhere. A
+//! before/after inventory (names, sizes, content hashes) of the original is diffed.
+//! The verdicts (Confined, SameResults, OriginalUntouched) come from spec/Trace_Relocate.tla.
 
-use crate::util::Args;
+use std::collections::BTreeMap;
+use std::path::{Component, Path, PathBuf};
 
-pub fn main(_args: &Args) -> Result<()> {
-  bail!("family relocate is not implemented yet")
+use anyhow::{anyhow, Result};
+use rand::rngs::StdRng;
+use rand::Rng;
+use serde_json::{json, Value};
+
+use searchlite_core::api::types::StorageType;
+use searchlite_core::api::Index;
+use searchlite_core::verif;
+
+use crate::corrupt::{battery, fnv, make_doc, schema_json};
+use crate::history::IDS;
+use crate::util::*;
+
+fn normalize(p: &Path, cwd: &Path) -> PathBuf {
+  let abs = if p.is_absolute() { p.to_path_buf() } else { cwd.join(p) };
+  let mut out = PathBuf::new();
+  for c in abs.components() {
+    match c {
+      Component::CurDir => {}
+      Component::ParentDir => {
+        out.pop();
+      }
+      other => out.push(other.as_os_str()),
+    }
+  }
+  out
+}
+
+/// (class, name): class B = under the copy's root, A = under the original's root, else `other`.
+fn classify(path: &str, cwd: &Path, a: &Path, b: &Path) -> (&'static str, String) {
+  let p = normalize(Path::new(path), cwd);
+  if let Ok(rel) = p.strip_prefix(b) {
+    ("B", rel.to_string_lossy().into_owned())
+  } else if let Ok(rel) = p.strip_prefix(a) {
+    ("A", rel.to_string_lossy().into_owned())
+  } else {
+    ("other", p.to_string_lossy().into_owned())
+  }
+}
+
+/// Recursive copy, like `cp -a src dst` for regular files and directories.
+fn copy_tree(src: &Path, dst: &Path) -> Result<()> {
+  std::fs::create_dir_all(dst)?;
+  let mut entries: Vec<PathBuf> = std::fs::read_dir(src)?.map(|e| e.map(|e| e.path())).collect::<std::io::Result<_>>()?;
+  entries.sort();
+  for p in entries {
+    let to = dst.join(p.file_name().unwrap());
+    if p.is_dir() {
+      copy_tree(&p, &to)?;
+    } else {
+      std::fs::copy(&p, &to)?;
+    }
+  }
+  Ok(())
+}
+
+/// name -> (size, content hash); empty when the directory does not exist.
+fn inventory(root: &Path) -> BTreeMap<String, (u64, String)> {
+  if !root.exists() {
+    return BTreeMap::new();
+  }
+  crate::corrupt::read_tree(root)
+    .unwrap_or_default()
+    .into_iter()
+    .map(|(n, d)| {
+      let h = fnv(&d.iter().map(|b| format!("{b:02x}")).collect::<String>());
+      (n, (d.len() as u64, h))
+    })
+    .collect()
+}
+
+fn id_ver_list(idx: &Index) -> Result<Vec<(String, u64)>> {
+  Ok(
+    contents(idx)?
+      .into_iter()
+      .map(|(id, f)| {
+        let ver = f.get("ver").and_then(|v| v.as_u64()).unwrap_or(0);
+        (id, ver)
+      })
+      .collect(),
+  )
+}
+
+fn idver_json(l: &[(String, u64)]) -> Value {
+  Value::Array(l.iter().map(|(i, v)| json!({"id": i, "ver": v})).collect())
+}
+
+/// Digests of the observation battery (scores and stored fields included).
+fn digests(idx: &Index) -> Result<Vec<String>> {
+  let reader = idx.reader()?;
+  let mut out = Vec::new();
+  for (_, req) in battery() {
+    let res = reader.search(&request(req))?;
+    let mut s = format!("total={}", res.total_hits_estimate);
+    for h in res.hits.iter() {
+      s.push_str(&format!(
+        " | {} s={:08x} f={}",
+        h.doc_id,
+        h.score.to_bits(),
+        h.fields.as_ref().map(|f| f.to_string()).unwrap_or_default()
+      ));
+    }
+    out.push(fnv(&s));
+  }
+  Ok(out)
+}
+
+struct WriteOps {
+  adds: Vec<(String, u64)>,
+  dels: Vec<String>,
+}
+
+fn random_write_ops(r: &mut StdRng, ver: &mut u64, ids: &[&str]) -> WriteOps {
+  let mut w = WriteOps { adds: Vec::new(), dels: Vec::new() };
+  for _ in 0..r.gen_range(1..=3) {
+    *ver += 1;
+    w.adds.push((pick(r, ids).to_string(), *ver));
+  }
+  for _ in 0..r.gen_range(0..=2) {
+    w.dels.push(pick(r, ids).to_string());
+  }
+  w
+}
+
+/// add all, then delete all, then commit (the order the trace specification folds them in).
+fn apply_write_ops(idx: &Index, w: &WriteOps, r: &mut StdRng) -> Result<()> {
+  let mut wr = idx.writer()?;
+  for (id, ver) in w.adds.iter() {
+    wr.add_document(&doc_from_json(make_doc(id, *ver, r)))?;
+  }
+  if !w.dels.is_empty() {
+    wr.delete_documents(&w.dels)?;
+  }
+  wr.commit()?;
+  Ok(())
+}
+
+fn ops_json(w: &WriteOps) -> Value {
+  let mut ops: Vec<Value> = w.adds.iter().map(|(i, v)| json!({"t": "add", "id": i, "ver": v})).collect();
+  ops.extend(w.dels.iter().map(|i| json!({"t": "del", "id": i, "ver": 0})));
+  Value::Array(ops)
+}
+
+struct Stats {
+  fs_events: usize,
+  calls: usize,
+  under_a: usize,
+  distinct: std::collections::BTreeSet<String>,
+}
+
+struct Ctx<'a> {
+  cwd: PathBuf,
+  a_abs: PathBuf,
+  b_abs: PathBuf,
+  tr: &'a mut Tracer,
+  st: &'a mut Stats,
+}
+
+impl<'a> Ctx<'a> {
+  /// Emit the fs events recorded during a call made through the copy.
+  fn flush_fs(&mut self) {
+    for ev in verif::take_events() {
+      if ev.op == "point" {
+        continue;
+      }
+      let (cls, name) = classify(&ev.path, &self.cwd, &self.a_abs, &self.b_abs);
+      let (to_cls, to_name) = if ev.op == "rename" {
+        classify(&ev.path2, &self.cwd, &self.a_abs, &self.b_abs)
+      } else {
+        (cls, String::new())
+      };
+      if cls == "A" || to_cls == "A" {
+        self.st.under_a += 1;
+      }
+      self.st.fs_events += 1;
+      self.st.distinct.insert(format!("{}|{}|{}|{}", ev.op, cls, suffix(&name), ev.ok));
+      self.tr.emit(json!({
+        "ev": "fs", "op": ev.op, "cls": cls, "name": name, "to_cls": to_cls, "to": to_name, "ok": ev.ok,
+      }));
+    }
+  }
+}
+
+fn suffix(name: &str) -> String {
+  name.rsplit('.').next().unwrap_or("").to_string()
+}
+
+#[allow(clippy::too_many_arguments)]
+fn run_scenario(scn: usize, seed: u64, n_ops: usize, tr: &mut Tracer, st: &mut Stats) -> Result<()> {
+  let mut r = rng(seed, 28_000_000 + scn as u64);
+  let scratch = Scratch::new("reloc");
+  let cwd = scratch.path.clone();
+  std::env::set_current_dir(&cwd)?;
+  let a_abs = cwd.join("a").join("idx");
+  let b_abs = cwd.join("b").join("idx");
+  let via_a = if chance(&mut r, 1, 2) { "rel" } else { "abs" };
+  let via_b = if chance(&mut r, 1, 2) { "rel" } else { "abs" };
+  let a_path = if via_a == "rel" { PathBuf::from("a/idx") } else { a_abs.clone() };
+  let b_path = if via_b == "rel" { PathBuf::from("b/idx") } else { b_abs.clone() };
+  let how = if chance(&mut r, 1, 4) { "move" } else { "copy" };
+  let fate = if how == "move" {
+    "moved"
+  } else {
+    *pick(&mut r, &["kept", "kept", "modified", "compacted", "removed", "removed"])
+  };
+  let ids = &IDS[..6];
+  let mut ver = 0u64;
+  // the original: 1-3 commits
+  let schema = schema_from_json(schema_json());
+  let pre;
+  let pre_digest;
+  let segnames: Vec<String>;
+  {
+    let idx = Index::create(&a_path, schema, opts(&a_path, StorageType::Filesystem))?;
+    for _ in 0..r.gen_range(1..=3) {
+      let w = random_write_ops(&mut r, &mut ver, ids);
+      apply_write_ops(&idx, &w, &mut r)?;
+    }
+    if idx.manifest().segments.is_empty() {
+      // adds cancelled by deletes: commit one document so that there is something to relocate
+      ver += 1;
+      let w = WriteOps { adds: vec![(ids[0].to_string(), ver)], dels: Vec::new() };
+      apply_write_ops(&idx, &w, &mut r)?;
+    }
+    pre = id_ver_list(&idx)?;
+    pre_digest = digests(&idx)?;
+    let m = idx.manifest();
+    let mut names = Vec::new();
+    for s in m.segments.iter() {
+      for p in [&s.paths.terms, &s.paths.postings, &s.paths.docstore, &s.paths.fast, &s.paths.meta] {
+        names.push(Path::new(p).file_name().unwrap().to_string_lossy().into_owned());
+      }
+      if let Some(d) = s.paths.vector_dir.as_ref() {
+        names.push(Path::new(d).file_name().unwrap().to_string_lossy().into_owned());
+      }
+    }
+    segnames = names;
+  }
+  // relocate
+  std::fs::create_dir_all(b_abs.parent().unwrap())?;
+  if how == "move" {
+    std::fs::rename(&a_abs, &b_abs)?;
+  } else {
+    copy_tree(&a_abs, &b_abs)?;
+  }
+  // fate of the original
+  match fate {
+    "modified" | "compacted" => {
+      let idx = Index::open(opts(&a_path, StorageType::Filesystem))?;
+      let w = random_write_ops(&mut r, &mut ver, ids);
+      apply_write_ops(&idx, &w, &mut r)?;
+      if fate == "compacted" {
+        idx.compact()?;
+      }
+    }
+    "removed" => std::fs::remove_dir_all(&a_abs)?,
+    _ => {}
+  }
+  let inv_before = inventory(&a_abs);
+  tr.emit(json!({
+    "ev": "reset", "scn": scn, "via_a": via_a, "via_b": via_b, "how": how, "fate": fate,
+    "pre": idver_json(&pre), "pre_digest": pre_digest, "segnames": segnames,
+    "a_exists": a_abs.exists(), "a_files": inv_before.len(),
+  }));
+  // operations through the copy
+  let mut plan: Vec<&str> = vec!["open", "search"];
+  let mut has_compact = false;
+  for _ in 0..n_ops {
+    let roll = r.gen_range(0..100);
+    let op = match roll {
+      0..=19 => "search",
+      20..=59 => "commit",
+      60..=84 => "compact",
+      _ => "open",
+    };
+    has_compact |= op == "compact";
+    plan.push(op);
+    if op != "search" {
+      plan.push("search");
+    }
+  }
+  if !has_compact {
+    plan.push("commit");
+    plan.push("compact");
+    plan.push("search");
+  }
+  let mut ctx = Ctx { cwd: cwd.clone(), a_abs: a_abs.clone(), b_abs: b_abs.clone(), tr, st };
+  let mut idx: Option<Index> = None;
+  for op in plan {
+    if op != "open" && idx.is_none() {
+      break;
+    }
+    ctx.st.calls += 1;
+    match op {
+      "open" => {
+        drop(idx.take());
+        ctx.tr.emit(json!({"ev": "call", "op": "open", "ops": []}));
+        verif::start_recording();
+        let res = Index::open(opts(&b_path, StorageType::Filesystem));
+        verif::stop_recording();
+        ctx.flush_fs();
+        let err = res.as_ref().err().map(|e| format!("{e:#}")).unwrap_or_default();
+        ctx.tr.emit(json!({"ev": "ret", "ok": res.is_ok(), "obs": [], "digest": [], "err": err}));
+        idx = res.ok();
+      }
+      "search" => {
+        let i = idx.as_ref().unwrap();
+        ctx.tr.emit(json!({"ev": "call", "op": "search", "ops": []}));
+        verif::start_recording();
+        let res = id_ver_list(i).and_then(|l| digests(i).map(|d| (l, d)));
+        verif::stop_recording();
+        ctx.flush_fs();
+        match res {
+          Ok((l, d)) => ctx.tr.emit(json!({"ev": "ret", "ok": true, "obs": idver_json(&l), "digest": d, "err": ""})),
+          Err(e) => ctx.tr.emit(json!({"ev": "ret", "ok": false, "obs": [], "digest": [], "err": format!("{e:#}")})),
+        }
+      }
+      "commit" => {
+        let i = idx.as_ref().unwrap();
+        let w = random_write_ops(&mut r, &mut ver, ids);
+        ctx.tr.emit(json!({"ev": "call", "op": "commit", "ops": ops_json(&w)}));
+        verif::start_recording();
+        let res = apply_write_ops(i, &w, &mut r);
+        verif::stop_recording();
+        ctx.flush_fs();
+        let err = res.as_ref().err().map(|e| format!("{e:#}")).unwrap_or_default();
+        ctx.tr.emit(json!({"ev": "ret", "ok": res.is_ok(), "obs": [], "digest": [], "err": err}));
+      }
+      "compact" => {
+        let i = idx.as_ref().unwrap();
+        ctx.tr.emit(json!({"ev": "call", "op": "compact", "ops": []}));
+        verif::start_recording();
+        let res = i.compact();
+        verif::stop_recording();
+        ctx.flush_fs();
+        let err = res.as_ref().err().map(|e| format!("{e:#}")).unwrap_or_default();
+        ctx.tr.emit(json!({"ev": "ret", "ok": res.is_ok(), "obs": [], "digest": [], "err": err}));
+      }
+      _ => unreachable!(),
+    }
+  }
+  drop(idx);
+  let _ = verif::take_events();
+  // what happened to the original
+  let inv_after = inventory(&a_abs);
+  let removed: Vec<&String> = inv_before.keys().filter(|k| !inv_after.contains_key(*k)).collect();
+  let added: Vec<&String> = inv_after.keys().filter(|k| !inv_before.contains_key(*k)).collect();
+  let changed: Vec<&String> = inv_before
+    .iter()
+    .filter(|(k, v)| inv_after.get(*k).map(|w| w != *v).unwrap_or(false))
+    .map(|(k, _)| k)
+    .collect();
+  ctx.tr.emit(json!({
+    "ev": "inv", "removed": removed, "added": added, "changed": changed,
+    "a_exists_after": a_abs.exists(),
+  }));
+  std::env::set_current_dir("/")?;
+  Ok(())
+}
+
+pub fn main(args: &Args) -> Result<()> {
+  let seed = args.u64("seed", 1);
+  let out = args.str("out", "/verif/out/relocate.ndjson");
+  let n_scn = args.usize("scenarios", 30);
+  let n_ops = args.usize("ops", 4);
+  let out_abs = normalize(Path::new(&out), &std::env::current_dir()?);
+  let mut tr = Tracer::create(&out_abs)?;
+  let mut st = Stats { fs_events: 0, calls: 0, under_a: 0, distinct: Default::default() };
+  let home = std::env::current_dir()?;
+  let mut res = Ok(());
+  for scn in 0..n_scn {
+    res = run_scenario(scn, seed, n_ops, &mut tr, &mut st);
+    if res.is_err() {
+      break;
+    }
+  }
+  let _ = std::env::set_current_dir(&home);
+  res.map_err(|e| anyhow!("relocate scenario failed: {e:#}"))?;
+  let lines = tr.finish();
+  println!(
+    "{}",
+    json!({"scenarios": n_scn, "events": lines, "fs_events": st.fs_events, "calls": st.calls,
+           "events_under_original": st.under_a, "distinct": st.distinct.len(), "out": out})
+  );
+  Ok(())
 }
